@@ -139,12 +139,12 @@ func checkOne(t schema.Type, spec yangval.Spec, v string) []engine.Violation {
 		}
 		if spec.Msg != "" && spec.Kind != "union" && pg.GetMessage() != spec.Msg {
 			// the custom message belongs to the restriction; a lexically invalid value may get the generic message
-			if ok2, _ := (yangval.Spec{Kind: spec.Kind, Bits: spec.Bits, Fd: spec.Fd}).Contains(v); ok2 {
+			if spec.LexicallyValid(v) {
 				return mk("custom-error-message-lost:"+kindKey(spec), fmt.Sprintf("message %q, expected %q", pg.GetMessage(), spec.Msg))
 			}
 		}
 		if spec.Tag != "" && spec.Kind != "union" && pg.GetAppTag() != spec.Tag {
-			if ok2, _ := (yangval.Spec{Kind: spec.Kind, Bits: spec.Bits, Fd: spec.Fd}).Contains(v); ok2 {
+			if spec.LexicallyValid(v) {
 				return mk("custom-error-app-tag-lost:"+kindKey(spec), fmt.Sprintf("app-tag %q, expected %q", pg.GetAppTag(), spec.Tag))
 			}
 		}
